@@ -374,7 +374,7 @@ func getApplicationDAO(app *objects.Application) *dao.ApplicationDAOInfo {
 		User:               app.GetUser().User,
 		Groups:             app.GetUser().Groups,
 		RejectedMessage:    app.GetRejectedMessage(),
-		PlaceholderData:    getPlaceholdersDAO(app.GetAllPlaceholderData()),
+		PlaceholderData:    getPlaceholdersDAO(app.GetPlaceholderDataCopy()),
 		StateLog:           getStatesDAO(app.GetStateLog()),
 		HasReserved:        app.HasReserved(),
 		Reservations:       app.GetReservations(),
